@@ -9,6 +9,7 @@ DG(g)            == [op |-> "del_graph", g |-> g]
 DA               == [op |-> "del_all"]
 EX(g)            == [op |-> "extract", g |-> g]
 DN(g, l)         == [op |-> "del_node", g |-> g, label |-> l]
+GG(g)            == [op |-> "get_graph", g |-> g]
 
 ScriptsDef ==
     CASE Scenario = 1 -> [t \in {1, 2} |-> IF t = 1 THEN <<AG("g1", <<"a", "b">>, 0), AB("g1", "c")>>
@@ -30,9 +31,10 @@ ScriptsDef ==
                                           AG("g1", <<"a", "b", "c", "d">>, 0), DN("g1", "a"), AB("g1", "n1"), DN("g1", "c"), DN("g1", "zz"),
                                           AB("g1", "n2"), EX("g1"), DN("g1", "n2"), AB("g1", "n3"), AD("g1", <<"p", "q">>), DN("g1", "p"),
                                           AB("g1", "n4"), AB("g2", "m1"), DN("g2", "m1"), AB("g2", "m2"), EX("g1"), EX("g2")>>]
-      \* node deletions racing with additions to the same and to another graph
-      [] Scenario = 7 -> [t \in {1, 2} |-> IF t = 1 THEN <<AG("g1", <<"a", "b", "c">>, 0), DN("g1", "a"), AB("g1", "d")>>
-                                                     ELSE <<AB("g2", "x"), AB("g1", "e"), DN("g2", "x"), AB("g2", "y")>>]
+      \* two threads building a graph under a brand-new id node by node (every property-graph call looks the graph up first)
+      [] Scenario = 7 -> [t \in {1, 2} |-> IF t = 1 THEN <<GG("g1"), AB("g1", "a"), GG("g2")>>
+                                                     ELSE <<GG("g1"), AB("g1", "b"), EX("g1")>>]
+
 
 \* hand the scenario to the schedule explorer (harness/sched.py) - the scripts exist only here
 EmitScenario == PrintT(ToJson([scenario |-> Scenario, scripts |-> [t \in DOMAIN ScriptsDef |-> ScriptsDef[t]]]))
